@@ -170,7 +170,7 @@ def run_tlc(
 _RE_STATES = re.compile(r"(\d+) states generated, (\d+) distinct states found")
 _RE_DEPTH = re.compile(r"The depth of the complete state graph search is (\d+)")
 _RE_INV = re.compile(r"Error: Invariant (\S+) is violated")
-_RE_PROP = re.compile(r"Error: (?:Temporal properties were violated|Temporal property (\S+) was violated|Action property (\S+) is violated)")
+_RE_PROP = re.compile(r"Error: (?:Temporal properties (?:.* )?were violated|Temporal property (\S+) was violated|Action property (\S+) is violated)")
 _RE_COV = re.compile(r"^<(\w+) line \d+, col \d+ to line \d+, col \d+ of module (\w+)>: (\d+):(\d+)", re.M)
 _RE_SIMSTATES = re.compile(r"The number of states generated: (\d+)")
 
